@@ -5,6 +5,6 @@ cd /repo || exit 9
 git diff --quiet || { echo "/repo has uncommitted changes"; exit 9; }
 git apply "$PATCH" || { echo "patch does not apply"; exit 9; }
 for p in "$@"; do
-  (cd /verif && ./check "$p" --no-evidence 2>&1 | grep -E "^VIOLATION|^KNOWN|^UNDECIDED|^C[0-9]+:" | cut -c1-220)
+  (cd /verif && ./check "$p" --no-evidence 2>&1 | grep -E "^VIOLATION|^KNOWN|^UNDECIDED|^C[0-9]+:")
 done
 git checkout -- . && git status --short | head -3
